@@ -36,7 +36,17 @@ pub enum Mut {
     Flip { off: usize, val: u8 },
     Field { off: usize, val: u32 },
     Trunc { len: usize },
+    /// one byte removed (text formats: merges fields / lines)
+    Delete { off: usize },
+    /// one byte inserted before `off`
+    Insert { off: usize, val: u8 },
+    /// two bytes replaced by a valid two-byte UTF-8 character
+    Utf8 { off: usize },
+    /// text formats: the run of ASCII digits starting at `off` replaced by TEXT_NUMBERS[which]
+    TextNum { off: usize, which: u8 },
 }
+
+const TEXT_NUMBERS: [&str; 7] = ["0", "-1", "2147483647", "2147483648", "4294967295", "9223372036854775807", "18446744073709551615"];
 
 #[derive(Clone, Debug, Serialize, Deserialize, PartialEq)]
 pub enum Muts {
@@ -111,7 +121,74 @@ fn enumerate(base: &[u8], boundaries: &[usize], seed: u64, quick: bool) -> (Vec<
     for _ in 0..8 {
         v.push(Mut::Trunc { len: rng.usize_below(len + 1) });
     }
+    // text formats (decided from the content: >= 95 % of the bytes are tab/LF/CR/printable ASCII):
+    // structural substitutions, deletions, insertions and a valid multibyte character
+    if is_text(base) {
+        for &o in &offs {
+            let b = base[o];
+            for val in [b'\t', b'\n', b'\r', b' ', b';', b'=', b':', b',', b'.', b'0', b'-', b'@', b'>', b'#', b'"'] {
+                if val != b {
+                    v.push(Mut::Flip { off: o, val });
+                }
+            }
+            v.push(Mut::Delete { off: o });
+            for val in [b'\t', b'\n', b'\r'] {
+                v.push(Mut::Insert { off: o, val });
+            }
+            if o + 2 <= len {
+                v.push(Mut::Utf8 { off: o });
+            }
+            if b.is_ascii_digit() && (o == 0 || !base[o - 1].is_ascii_digit()) {
+                for which in 0..TEXT_NUMBERS.len() as u8 {
+                    v.push(Mut::TextNum { off: o, which });
+                }
+            }
+        }
+    }
     (v, all)
+}
+
+fn is_text(b: &[u8]) -> bool {
+    !b.is_empty() && b.iter().filter(|&&c| c == b'\t' || c == b'\n' || c == b'\r' || (0x20..0x7f).contains(&c)).count() * 100 >= b.len() * 95
+}
+
+/// Length-preserving or not, applied to a plain byte string.
+fn apply_bytes(v: &mut Vec<u8>, m: &Mut) {
+    match m {
+        Mut::Flip { off, val } => {
+            if *off < v.len() {
+                v[*off] = *val;
+            }
+        }
+        Mut::Field { off, val } => {
+            if *off + 4 <= v.len() {
+                v[*off..*off + 4].copy_from_slice(&val.to_le_bytes());
+            }
+        }
+        Mut::Trunc { len } => v.truncate(*len),
+        Mut::Delete { off } => {
+            if *off < v.len() {
+                v.remove(*off);
+            }
+        }
+        Mut::Insert { off, val } => {
+            if *off <= v.len() {
+                v.insert(*off, *val);
+            }
+        }
+        Mut::Utf8 { off } => {
+            if *off + 2 <= v.len() {
+                v[*off] = 0xc3;
+                v[*off + 1] = 0xa9;
+            }
+        }
+        Mut::TextNum { off, which } => {
+            if *off < v.len() {
+                let end = (*off..v.len()).find(|&i| !v[i].is_ascii_digit()).unwrap_or(v.len());
+                v.splice(*off..end, TEXT_NUMBERS[*which as usize % TEXT_NUMBERS.len()].bytes());
+            }
+        }
+    }
 }
 
 /// The uncompressed stream of a BGZF container with member-wise rebuild.
@@ -142,6 +219,20 @@ impl PayloadLayer {
             Mut::Field { off, val } => {
                 data[*off..*off + 4].copy_from_slice(&val.to_le_bytes());
                 (*off, *off + 4)
+            }
+            Mut::Delete { .. } | Mut::Insert { .. } | Mut::TextNum { .. } => {
+                // length-changing: the whole stream is re-framed in members of <= 60 000 bytes
+                apply_bytes(&mut data, m);
+                let mut out = Vec::new();
+                for chunk in data.chunks(60_000) {
+                    out.extend_from_slice(&mbgzf::rebuild_member(chunk));
+                }
+                out.extend_from_slice(&mbgzf::EOF_MARKER);
+                return out;
+            }
+            Mut::Utf8 { off } => {
+                apply_bytes(&mut data, m);
+                (*off, *off + 2)
             }
             Mut::Trunc { len } => {
                 // truncate the uncompressed stream: keep whole members before, rebuild the last
@@ -178,19 +269,7 @@ impl PayloadLayer {
 
 fn apply_raw(base: &[u8], m: &Mut) -> Vec<u8> {
     let mut v = base.to_vec();
-    match m {
-        Mut::Flip { off, val } => {
-            if *off < v.len() {
-                v[*off] = *val;
-            }
-        }
-        Mut::Field { off, val } => {
-            if *off + 4 <= v.len() {
-                v[*off..*off + 4].copy_from_slice(&val.to_le_bytes());
-            }
-        }
-        Mut::Trunc { len } => v.truncate(*len),
-    }
+    apply_bytes(&mut v, m);
     v
 }
 
@@ -229,6 +308,10 @@ fn mut_class(m: &Mut) -> &'static str {
         Mut::Flip { .. } => "D_FLIP",
         Mut::Field { .. } => "D_FIELD",
         Mut::Trunc { .. } => "R_CUT",
+        Mut::Delete { .. } => "D_DELETE",
+        Mut::Insert { .. } => "D_INSERT",
+        Mut::Utf8 { .. } => "D_UTF8",
+        Mut::TextNum { .. } => "D_TEXTNUM",
     }
 }
 
@@ -354,7 +437,8 @@ impl Check for C15 {
                 let offs: Vec<usize> = match m {
                     Mut::Flip { off, .. } => vec![*off],
                     Mut::Field { off, .. } => vec![*off, *off + 3],
-                    Mut::Trunc { .. } => vec![],
+                    Mut::Trunc { .. } | Mut::Delete { .. } | Mut::Insert { .. } | Mut::TextNum { .. } => vec![],
+                    Mut::Utf8 { off } => vec![*off, *off + 1],
                 };
                 for o in offs {
                     if o < bytes.len() {
